@@ -450,6 +450,10 @@ fn check_c16(case: &Case, out: &Outcome, h: &Hist, _g: &mut Group) -> Vec<Violat
     let ag = agenda::build(case, h);
     // Open known findings of the classification oracle belong to C11 (race F9), not to the naming rule.
     v.extend(fault::classification(case, h, &ag).into_iter().filter(|x| x.key != "secondary_send_error_wins_race_mt"));
+    // The large benches are acyclic and fault-free: they cannot stall, every command succeeds.
+    if case.profile.starts_with("init-") && !case.nodes.iter().any(|n| n.dead || !n.registered || n.panic_at.is_some()) {
+        v.extend(flow::all_ok(h));
+    }
     v
 }
 fn nt_c16(c: &Case, _out: &Outcome, h: &Hist) -> bool {
